@@ -14,6 +14,7 @@ import Emg3dVerif.Drv.C14
 import Emg3dVerif.Drv.C16
 import Emg3dVerif.Drv.C17
 import Emg3dVerif.Drv.C18
+import Emg3dVerif.Drv.C19
 open Emg
 
 def handle (ws : List String) : String :=
@@ -37,6 +38,7 @@ def handle (ws : List String) : String :=
       else if w == "stretch" || w == "goodmg" || w == "cutvec" || w == "compdom" || w == "oaw" then Drv16.handle ws
       else if w == "io" then Drv17.handle ws
       else if w.startsWith "cli" then Drv18.handle ws
+      else if w == "imat" || w == "merge" || w == "lslots" then Drv19.handle ws
       else none
     r.getD "bad-op"
 
